@@ -27,7 +27,8 @@ RULE = ("integer tensors (Tucker-structured low rank with integer core/factors, 
         "dense/sparse/Kruskal/Tucker (dense core and sparse core with dense factors); all modes n, all 1 <= r <= size (iterative path "
         "r < size-1 and dense path), flipsign on/off; holder variants: arrays held C-contiguous or as non-contiguous views, data scaled by "
         "2^(+-24) (Kruskal: in the weights or in one factor), dense tensors held in float32/int64/int32/int16/int8/uint8/uint16 with "
-        "magnitudes whose slice inner products overflow that dtype, Tucker/Kruskal factors with unit-norm columns (signed unit vectors: "
+        "magnitudes whose slice inner products overflow that dtype, Tucker tensors (dense and sparse core) whose factor matrices are "
+        "scipy coo matrices (all / some; the requested mode's factor sparse and dense), Tucker/Kruskal factors with unit-norm columns (signed unit vectors: "
         "orthonormal, or repeated = not orthogonal; generic directions normalised on the 2^-30 grid); sequences of nvecs calls over all modes "
         "on ONE object with another operation between the calls (normalize / normalize(weight_factor=k|'all') / normalize(sort) / arrange / "
         "fixsigns / redistribute / full / norm / innerprod / ttv / to_tenmat / collapse), sparse sequences checked at the Gram matrix; "
@@ -36,8 +37,13 @@ RULE = ("integer tensors (Tucker-structured low rank with integer core/factors, 
         "sparse requests (singleton mode n and singleton product of the other modes included since /repo f3d6beb) are compared facet by "
         "facet: sp_gram (Gram matrix, code-path model, recorded tnt, result shape, solver choice), sp_real (dtype), sp_eig, sp_post, sp_cols "
         "(orthonormal + sign rule), sp_set (eigenpairs of the r largest eigenvalues in any order), sp_code (the code's own post-processing of "
-        "the recorded solver output), sp_agree; only-singleton shapes: sp_refused (ValueError and model refusal); 1-way sparse tensors: "
-        "sp_oneway (finding C14-F3); "
+        "the recorded solver output), sp_agree; only-singleton shapes (also (1,)): sp_refused (ValueError and model refusal); 1-way sparse "
+        "tensors are ordinary requests since /repo c11bcb2 (all facets, code-path model, recorded tnt; the witness of C14-F3 is a fixed "
+        "regression case); modes that do not exist (n = -1, -ndims-1, ndims, ndims+2) on sparse tensors: sp_badmode (AssertionError of "
+        "the range test of /repo 453f75b and model refusal sp_nvecs_tnt_z); dense holders of dtype bool (0/1 data; /repo 08011d5); "
+        "CP models in Tucker form (superdiagonal core of weights, every factor tall with unit-norm non-orthogonal columns: signed unit "
+        "vectors repeated / generic directions on the 2^-30 grid), every mode, r = 1 and r = R, held ttensor / ttensor_sp / ktensor / "
+        "dense + agreement; "
         "large modes (ops big / sp_big): rank-5 integer tensors with one mode of size 24..40 at any position, r = 1, 2 on the iterative path, "
         "leading eigenvectors exact and structured (sum 0 / orthogonal to the alternating vector / first entry 0 / generic), certified by the "
         "trace bound; the solver CALL (positional arguments, keyword names) of every run is recorded and must be solver(y, r) / solver(y); "
@@ -50,7 +56,6 @@ CORRESPONDENCE_ONLY = ["scipy.sparse products (COO x COO in sptensor.nvecs, COO 
                        "model impl_ttm_sp (theorem C02_ttm_sparse; tied to the code by C02's correspondence and here by the recorded H of "
                        "every exact sparse-core sample); the sptensor constructor calls inside the two reshape calls are taken to keep the rows "
                        "as given (recorded spmatrix() output = model tnt on every exact sparse sample)",
-                       "sptensor.nvecs on a 1-way tensor (finding C14-F3: raises; outside the domain 2 <= ndims of C14_gram_sparse_code)",
                        "eigen solvers eigh/eigsh/eig/eigs: certificate-checked oracles"]
 ASSUMPTIONS = ["floats converted exactly (solver input/output) or on the 2^-40 grid (returned vectors) to rationals; recorded solver input of "
                "scaled data divided exactly by 4^exponent in the harness",
@@ -63,11 +68,18 @@ EXPLANATION = ("C14_gram_dense / _sparse / _kruskal / _tucker: the Gram matrix t
                "C14_coo_product: the COO product model is the matrix product of the denotations; C14_sparse_rekey_bridge / "
                "C14_gram_sparse_code(_spec): sptensor.nvecs' reshape / second reshape (over the GENERATED tt_sub2ind / tt_ind2sub) / spmatrix / transpose "
                "yields exactly the triples of C14_gram_sparse, so the code path's product is gram_sp_impl = the matrix product of the denoted "
-               "arrays = gram_spec — for every tensor with >= 2 modes that is not only-singleton (after /repo f3d6beb); "
+               "arrays = gram_spec — for every tensor (1-way included since /repo c11bcb2: C14_sparse_oneway_answered) and existing mode that is "
+               "not only-singleton (after /repo f3d6beb); C14_sparse_mode_refused: modes that do not exist are refused by the range test "
+               "of /repo 453f75b; C14_gram_dense_held: tensor.nvecs converts the holder to float64 BEFORE the product (/repo 08011d5), so the "
+               "solver input is the Gram matrix of the converted entries for every holder element type; "
                "C14_sparse_singleton_answered / C14_sparse_all_singleton_refused: singleton mode n or singleton product of the others is answered, "
                "only-singleton shapes are refused; C14_sparse_post_dense_sorted / _iter_sorted / _iter_one, C14_argsort_sorted_id: the code's own "
                "post-processing on the sparse path (row permutation / no sort: finding A-38) is the postprocess of the other representations "
                "when the solver output has |w| non-increasing; "
+               "C14_cp_as_tucker_den / C14_cp_tucker_same_gram: a CP model in Tucker form (superdiagonal core) denotes the Kruskal tensor, so the "
+               "Tucker and the Kruskal code hand the same matrix to the solver; C14_captured_is_energy / C14_energy_of_eigenvectors / "
+               "C14_max_energy / C14_kyfan_weights: eigenvectors of the r largest eigenvalues capture the maximal energy of the unfolding "
+               "(Ky Fan); "
                "C14_sparse_ttm_chain / C14_gram_tucker_sparse_core_code(_spec): H = core.ttm(V) as the code computes it (sparse first step, "
                "tensor.ttm afterwards) is dense and holds core x_m V_m, so the sparse-core theorem needs no hypothesis about H; the COO matrix "
                "spmatrix() returns inside sptensor.nvecs and the tensor core.ttm(V) returns inside ttensor.nvecs are RECORDED and compared "
@@ -128,6 +140,47 @@ def _bundle_tucker(rng, shape, fkinds=None):
     return b
 
 
+def _bundle_cp_tucker(rng, shape, R, kind):
+    """a CP model written in Tucker form: superdiagonal R x ... x R core holding the weights, every factor with R unit-norm columns that
+    are NOT orthogonal — kind 'unit': signed unit vectors, two columns on the same row; kind 'gridnorm': generic directions normalised on
+    the 2^-30 grid (numpy.allclose accepts the norms as 1; integers to be scaled by 2^-30: key fexp).  With R < I_n the mode-n factor is
+    tall, so a shortcut through Un^T Y Un (valid for ORTHONORMAL Un only) would solve a different problem; r <= R"""
+    d = len(shape)
+    while True:
+        w = [rng.choice([-3, -2, -1, 1, 2, 3, 4]) for _ in range(R)]
+        Us = [cu.unit_factor(rng, shape[n], R, False) if kind == "unit" else cu.gridnorm_factor(rng, shape[n], R) for n in range(d)]
+        subs = tgen.all_subs(shape)
+        data = [sum(w[k] * math.prod(Us[n][sb[n]][k] for n in range(d)) for k in range(R)) for sb in subs]
+        if any(data):
+            break
+    core = [0] * (R ** d)
+    for k in range(R):
+        core[sum(k * R ** m for m in range(d))] = w[k]
+    b = {"shape": list(shape), "data": data, "kw": w, "kf": Us, "tcs": [R] * d, "tcore": core, "tf": Us,
+         "order": rng.choice(["sorted", "reversed", "random"]), "sseed": rng.randrange(10 ** 6)}
+    if kind == "gridnorm":
+        b["fexp"] = [-cu.GRID_BITS] * d
+    return b
+
+
+CP_TUCKER_Q = [((4, 3, 3), 2)]
+CP_TUCKER_T = CP_TUCKER_Q + [((5, 4, 4), 3), ((3, 4), 2), ((6, 3, 4), 2)]
+
+
+def _gen_cp_tucker(rng, big):
+    cases = []
+    for shp, R in (CP_TUCKER_T if big else CP_TUCKER_Q):
+        for kind in ("unit", "gridnorm"):
+            b = _bundle_cp_tucker(rng, shp, R, kind)
+            for n in range(len(shp)):
+                for r in sorted({1, R}):
+                    flip = rng.random() < 0.8
+                    for rp in ("ttensor", "ttensor_sp", "ktensor", "dense"):
+                        cases.append(Case("nvecs", dict(b, n=n, r=r, flip=flip, repr=rp), True))
+                    cases.append(Case("agree", dict(b, n=n, r=r, flip=flip), True))
+    return cases
+
+
 def _bundle_dense(rng, shape, lo=-3, hi=4):
     d = len(shape)
     while True:
@@ -163,13 +216,11 @@ def gen_cases(rng, tier):
                     for rp in REPRS:
                         a = dict(b, n=n, r=r, flip=flip, repr=rp)
                         if rp == "sparse":
-                            if _sp_class(shp, n) == "oneway":
-                                cases.append(Case("sp_oneway", a, shp[n] >= 2))     # finding C14-F3
-                                continue
                             if _sp_class(shp, n) == "refused":
                                 cases.append(Case("sp_refused", a, False))
                                 continue
-                            # singleton mode n / all other modes singleton: answered since /repo f3d6beb (C14-F2 repaired)
+                            # singleton mode n / all other modes singleton: answered since /repo f3d6beb (C14-F2 repaired);
+                            # 1-way tensors: answered since /repo c11bcb2 (C14-F3 repaired)
                             for op in SP_OPS:
                                 cases.append(Case(op, a, shp[n] >= 2))
                         else:
@@ -196,6 +247,7 @@ def gen_cases(rng, tier):
                         cases.append(Case("seq", dict(bs, repr=rp, modes=modes, rs=rs, flip=rng.random() < 0.8),
                                           any(shp[n] >= 2 for n in modes)))
     cases += _gen_variants(rng, big)
+    cases += _gen_cp_tucker(rng, big)
     cases += _gen_all_singleton(rng, big)
     return cases
 
@@ -276,10 +328,9 @@ SP_OPS = ("sp_gram", "sp_real", "sp_eig", "sp_post", "sp_cols", "sp_set", "sp_co
 
 
 def _sp_class(shp, n):
-    """what sptensor.nvecs does with (shape, n): 'oneway' (1-way tensor: finding C14-F3), 'refused' (mode n AND the product of the other
-    modes are 1: ValueError pinned by tests/test_sptensor.py; theorem C14_sparse_all_singleton_refused), else 'answered'"""
-    if len(shp) < 2:
-        return "oneway"
+    """what sptensor.nvecs does with (shape, n), n an existing mode: 'refused' (mode n AND the product of the other modes are 1 — the
+    empty product of a 1-way tensor included: ValueError pinned by tests/test_sptensor.py; theorem C14_sparse_all_singleton_refused),
+    else 'answered' (1-way tensors since /repo c11bcb2: theorem C14_sparse_oneway_answered)"""
     if shp[n] == 1 and all(s == 1 for k, s in enumerate(shp) if k != n):
         return "refused"
     return "answered"
@@ -288,7 +339,7 @@ def _sp_class(shp, n):
 def _gen_all_singleton(rng, big):
     """tensors with only singleton modes held sparse (one stored entry / nothing stored): the one request the code path refuses"""
     cases = []
-    for shp in [(1, 1), (1, 1, 1)] + ([(1, 1, 1, 1)] if big else []):
+    for shp in [(1,), (1, 1), (1, 1, 1)] + ([(1, 1, 1, 1)] if big else []):
         for v in (0, rng.choice([-3, 2, 5])):
             b = {"shape": list(shp), "data": [v], "order": "sorted", "sseed": 0}
             for n in range(len(shp)):
@@ -315,16 +366,32 @@ def _gen_all_singleton(rng, big):
                     cases.append(Case("nvecs", dict(b, n=n, r=r, flip=flip, repr=rp), shp[n] >= 2))
                 for op in SP_OPS:
                     cases.append(Case(op, dict(b, n=n, r=r, flip=flip, repr="sparse"), shp[n] >= 2))
-    # 1-way tensors held sparse (finding C14-F3; the other representations of 1-way tensors are in the thorough main stream)
-    for shp in [(4,), (2,)] + ([(6,)] if big else []):
+    # 1-way tensors held sparse: ordinary requests since /repo c11bcb2 (finding C14-F3 repaired; the other representations of 1-way
+    # tensors are in the thorough main stream); the first one is the witness of C14-F3 kept as a regression case
+    wit = {"shape": [5], "data": [2, 0, 1, -3, 0], "order": "sorted", "sseed": 0}
+    ones = [wit]
+    for shp in [(4,), (2,)] + ([(6,), (3,)] if big else []):
         b = _bundle_dense(rng, shp)
         b["order"], b["sseed"] = rng.choice(["sorted", "reversed", "random"]), rng.randrange(10 ** 6)
-        for r in sorted({1, shp[0] - 1, shp[0]} - {0}):
-            cases.append(Case("sp_oneway", dict(b, n=0, r=r, flip=True, repr="sparse"), shp[0] >= 2))
+        ones.append(b)
+    for b in ones:
+        I = b["shape"][0]
+        for r in sorted({1, I - 1, I} - {0}):
+            flip = rng.random() < 0.8
+            for op in SP_OPS:
+                cases.append(Case(op, dict(b, n=0, r=r, flip=flip, repr="sparse"), True))
+            cases.append(Case("sp_agree", dict(b, n=0, r=r, flip=flip), True))
+    # modes that do not exist (sparse holder): refused by the range test of /repo 453f75b (finding C19-N23 repaired; before, a 1 x 1
+    # Gram matrix of the fully vectorised tensor was answered); outside the property's quantifier — the model tie only
+    for shp in [(3, 2), (4,), (2, 3, 2)] + ([(1, 3), (2, 2, 2, 2)] if big else []):
+        b = _bundle_dense(rng, shp)
+        b["order"], b["sseed"] = rng.choice(["sorted", "reversed", "random"]), rng.randrange(10 ** 6)
+        for n in (-1, -len(shp) - 1, len(shp), len(shp) + 2):
+            cases.append(Case("sp_badmode", dict(b, n=n, r=1, flip=True, repr="sparse"), False))
     return cases
 
 
-DTYPES = (("float32", -3, 4), ("int64", -3, 4), ("int32", -80000, 80000), ("int16", -400, 400), ("int8", -50, 50), ("uint8", 0, 255), ("uint16", 0, 60000))
+DTYPES = (("bool", 0, 1), ("float32", -3, 4), ("int64", -3, 4), ("int32", -80000, 80000), ("int16", -400, 400), ("int8", -50, 50), ("uint8", 0, 255), ("uint16", 0, 60000))
 SHAPES_VQ = [(4, 3, 2), (3, 1, 2), (5, 2), (2, 2, 3, 2)]
 SHAPES_VT = SHAPES_VQ + [(1, 3, 2), (3, 4), (2, 5, 2), (4, 1, 1), (3, 3, 3), (6, 2, 2)]
 
@@ -340,7 +407,7 @@ def _emit(cases, b, rp, n, r, flip, shp):
     a = dict(b, n=n, r=r, flip=flip, repr=rp)
     if rp == "sparse":
         if _sp_class(shp, n) != "answered":
-            return          # 1-way / all-singleton: covered by the main stream (sp_oneway, sp_refused)
+            return          # all-singleton: covered by the main stream (sp_refused)
         for op in ("sp_gram", "sp_cols", "sp_set", "sp_code"):
             cases.append(Case(op, a, shp[n] >= 2))
     else:
@@ -381,6 +448,18 @@ def _gen_variants(rng, big):
             for _ in range(2 if big else 1):
                 n, r = _pick_nr(rng, shp)
                 _emit(cases, dict(b, dtype=dt), "dense", n, r, rng.random() < 0.8, shp)
+        # factor matrices held as scipy.sparse.coo_matrix (admitted by the ttensor constructor; ttensor.nvecs has its own branches for a
+        # sparse factor n, a sparse XnT and a sparse Y): dense core and sparse core, all / some factors sparse
+        for rp in ("ttensor_cf", "ttensor_spcf"):
+            for k in range(3 if big else 2):
+                b = fresh(_bundle_tucker)
+                n, r = _pick_nr(rng, shp)
+                mask = [True] * d if k == 0 else [rng.random() < 0.5 for _ in range(d)]
+                if k == 1:
+                    mask[n] = True
+                if k == 2:
+                    mask[n] = False
+                _emit(cases, dict(b, cfmask=mask), rp, n, r, rng.random() < 0.8, shp)
         # structured factors: the requested mode's factor has unit-norm columns (orthogonal / not orthogonal / generic directions)
         for fk in ("unit", "ortho") + (("gridnorm",) if (big or shp == SHAPES_VQ[0]) else ()):
             for n in range(d):
@@ -588,11 +667,11 @@ def _e_gram(a, o, rp, inexact=False):
         if _sp_class(a["shape"], a["n"]) == "answered":
             e += f" && omat_eqb (gram_sp_path_code {gs} {a['n']}) {gzmat(o['Y'])}"
             e += " && " + _e_tnt(a, o, gs)
-    if rp in ("ttensor", "ttensor_sp"):      # the through-the-core model of C14_gram_tucker
+    if rp.startswith("ttensor"):      # the through-the-core model of C14_gram_tucker (ttensor_cf / ttensor_spcf: coo factor matrices)
         e += f" && mat_eqb (gram_t_code {tgen.gttensor(a['tcs'], a['tcore'], a['tf'])} {a['n']}) {gzmat(o['Y'])}"
         if rp == "ttensor":
             e += f" && omat_eqb (gram_t_tm_code {tgen.gttensor(a['tcs'], a['tcore'], a['tf'])} {a['n']}) {gzmat(o['Y'])}"
-        else:                   # sparse core as stored
+        elif rp == "ttensor_sp":                   # sparse core as stored
             import random
             subs, vals = tgen.dense_to_sparse(a["tcs"], a["tcore"], random.Random(a["sseed"]), a["order"])
             gs = tgen.gsparse(a['tcs'], subs, vals)
@@ -699,11 +778,11 @@ def coq_check(c, o):
     a = c.args
     if c.op == "sp_refused":       # only singleton modes: the code path refuses (ValueError pinned by tests/), and so does its model
         return f"{gbool(o.get('exc') == 'ValueError' and 'only singleton' in (o.get('msg') or ''))} && sp_path_refused {_gsp(a)} {a['n']}"
+    if c.op == "sp_badmode":       # a mode that does not exist: refused by the range test (/repo 453f75b), and so does the model
+        return (f"{gbool(o.get('exc') == 'AssertionError')} && "
+                f"sp_path_refused_z {_gsp(a)} ({a['n']})%Z")
     if "exc" in o:
         return "false"
-    if c.op == "sp_oneway":        # 1-way sparse tensor: must be answered like every other representation (finding C14-F3)
-        return (f"{_e_gram(a, o, 'sparse')} && {_e_facts(a, o)} && {_e_imag0(o)} && "
-                f"cols_ok eps8 {gqmat(o['V'])} {a['shape'][a['n']]} {a['r']} {gbool(a['flip'])}")
     if c.op in ("big", "sp_big"):
         # large modes: the recorded solver input against the exact Gram matrix of the (dense) denotation, this representation denotes the
         # same tensor, the solver call, and the trace certificate; the code-path models are evaluated on the small streams (their
@@ -846,7 +925,7 @@ def _oracle_big(a, o, what, inorder):
 
 def oracle(c, o):
     a = c.args
-    if c.op == "sp_refused":
+    if c.op in ("sp_refused", "sp_badmode"):
         return None
     if "exc" in o:
         return f"admissible request raised {o['exc']}: {o.get('msg')}"
@@ -929,11 +1008,7 @@ def _a38(c):
     return [int(k) for k in (-np.abs(w)).argsort()] != list(range(I))
 
 
-def _is_sparse_oneway(c):
-    return c.op == "sp_oneway"
-
-
-TRIGGERS = {"sparse_nvecs": _a38, "sparse_oneway": _is_sparse_oneway}
+TRIGGERS = {"sparse_nvecs": _a38}
 
 
 def _wit_a38():
@@ -954,17 +1029,4 @@ def _wit_a38():
     return "; ".join(msgs) or None
 
 
-def _wit_oneway():
-    import numpy as np
-    import pyttb as ttb
-    S = ttb.sptensor(np.array([[0], [2], [3]]), np.array([[2.0], [1.0], [-3.0]]), (5,))
-    try:
-        v = np.real(np.asarray(S.nvecs(0, 1)))
-    except Exception as ex:
-        return f"sptensor.nvecs(0,1) on a 1-way tensor of size 5 raises {type(ex).__name__}: {str(ex)[:80]}"
-    d = np.array([2.0, 0, 1, -3, 0]) / np.sqrt(14.0)
-    return None if v.shape == (5, 1) and min(np.abs(v[:, 0] - d).max(), np.abs(v[:, 0] + d).max()) < 1e-9 else \
-        f"sptensor.nvecs(0,1) on a 1-way tensor returns {v.tolist()}"
-
-
-WITNESSES = {"A-38": _wit_a38, "C14-F3": _wit_oneway}
+WITNESSES = {"A-38": _wit_a38}
